@@ -86,10 +86,22 @@ func (fr *Frame) eval(st *State, x ast.Expr) *Term {
 		if x.Name == "false" {
 			return False
 		}
+		if fn, ok := fr.info.ObjectOf(x).(*types.Func); ok {
+			return fr.funcValue(st, fn)
+		}
 		return e.load(st, fr.evalLoc(st, x))
 	case *ast.SelectorExpr:
 		if sel := fr.info.Selections[x]; sel != nil && sel.Kind() == types.MethodVal {
-			fr.unsupported(x, "method value")
+			// a method value is an opaque non-nil function value (calling it is a call through a function value)
+			fr.evalIgnore(st, x.X)
+			v := Fresh("mv$"+x.Sel.Name, e.sortOf(fr.info.TypeOf(x)))
+			if v.S == IntSort {
+				st.Assume(Neq(v, IntLit(0)))
+			}
+			return v
+		}
+		if fn, ok := fr.info.ObjectOf(x.Sel).(*types.Func); ok && fr.info.Selections[x] == nil {
+			return fr.funcValue(st, fn)
 		}
 		l := fr.evalLoc(st, x)
 		v := e.load(st, l)
@@ -825,4 +837,13 @@ func (fr *Frame) dynIs(v *Term, t types.Type) *Term {
 	name := "istype$" + smtIdent(t.String())
 	DeclFunc(name, BoolSort, IntSort)
 	return And(Neq(v, IntLit(0)), App(name, v))
+}
+
+// funcValue: a named function used as a value is an opaque constant, distinct from nil.
+func (fr *Frame) funcValue(st *State, fn *types.Func) *Term {
+	v := Var("fn$"+smtIdent(funcKey(fn)), fr.e.sortOf(fn.Type()))
+	if v.S == IntSort {
+		st.Assume(Neq(v, IntLit(0)))
+	}
+	return v
 }
